@@ -86,11 +86,28 @@ def narrow_index_run(ctx):
             cnt += 1
             if int(r[0]) != want[0] or int(r[1]) != want[1]:
                 raise Failure({"j": j, "type": tname}, Violation("zernIndex(numpy.%s(%d)) = %r, Noll's ordering gives [%d, %d]" % (tname, j, [int(r[0]), int(r[1])], want[0], want[1])), None)
+    # the (n, m) entry point with orders taken from a narrow integer table
+    for tname in ("int8", "uint8", "int16", "uint16"):
+        T = getattr(np, tname)
+        for n_, m_ in ((2, 0), (3, 1), (4, 2), (7, 3), (12, 4), (40, 0), (100, 2)):
+            with _w.catch_warnings():
+                _w.simplefilter("ignore")
+                got = np.asarray(z.zernike_nm(T(n_), T(m_), 16))
+            want = np.asarray(z.zernike_nm(n_, m_, 16))
+            cnt += 1
+            if not (got.shape == want.shape and np.allclose(got, want, rtol=0, atol=1e-12 * math.sqrt(2 * n_ + 2), equal_nan=False)):
+                raise Failure({"n": n_, "m": m_, "type": tname}, Violation("zernike_nm(numpy.%s(%d), numpy.%s(%d), 16) differs from zernike_nm(%d, %d, 16) by %.3g" % (
+                    tname, n_, tname, m_, n_, m_, float(np.nanmax(np.abs(got - want))) if np.isfinite(got).any() else float("nan"))), None)
     ctx.bulk(cnt, cnt, sample={"j": 65535, "type": "uint16"}, exhaustive="zernIndex: every j representable in numpy.uint8 / int8 / int16 / uint16, passed in that type")
 
 
 def narrow_index_replay(ctx, case):
     z, _ = Z()
+    if "n" in case:
+        T = getattr(np, case["type"])
+        got, want = np.asarray(z.zernike_nm(T(case["n"]), T(case["m"]), 16)), np.asarray(z.zernike_nm(case["n"], case["m"], 16))
+        ctx.close(got, want, 1e-12, "zernike_nm with numpy.%s orders == zernike_nm with Python ints" % case["type"], scale=math.sqrt(2 * case["n"] + 2))
+        return
     j, T = case["j"], getattr(np, case["type"])
     want = noll.noll_single(j)
     r = z.zernIndex(T(j))
